@@ -230,4 +230,8 @@ def evalArms (c : BCfg) : List (Fld × Cmp × Int) → Option Bool
     uncommitted for good (the channel and the crdt batch are dropped with the component) -/
 def shutdown (s : St) : St := { s with queue := [], pend := {}, curSize := 0, timer := false, phase := .idle }
 
+/-- the same on the composed replica (ghost fields: `batch` = operations of the open batch) -/
+def cshutdown (c : CSt) : CSt :=
+  { c with queue := [], pend := {}, curSize := 0, timer := false, phase := .idle, batch := [] }
+
 end CV.C02.Hk
